@@ -93,16 +93,28 @@ def r132(ctx, rep):
         rep.bad("R13.2", "solution slices")
         rep.finding("R13.2", gm, ", ".join(elts[:3]), ret[0].lineno, f"the constant, gradient and implicit Hessian must be x[npt], x[npt+1:], x[:npt] of the KKT solution (the block order of build_system); found {elts[:3]}")
     # block layout of the matrix
+    # vocabulary of build_system: the matrix (a square zeros allocation), the
+    # scaled points (xpt / scale) and the number of points
+    mat = pts = None
+    for node in ast.walk(bs.node):
+        if isinstance(node, ast.Assign) and len(node.targets) == 1 and isinstance(node.targets[0], ast.Name):
+            v = node.value
+            if isinstance(v, ast.Call) and (dotted(v.func) or "").split(".")[-1] == "zeros" and v.args and isinstance(v.args[0], ast.Tuple) and len(v.args[0].elts) == 2 and norm(v.args[0].elts[0]) == norm(v.args[0].elts[1]):
+                mat = mat or node.targets[0].id
+            if isinstance(v, ast.BinOp) and isinstance(v.op, ast.Div) and mentions(v.left, "xpt") and pts is None:
+                pts = node.targets[0].id
+    if mat is None or pts is None:
+        raise AnalysisError("build_system: matrix allocation / scaled points not recognised")
     blocks = {}
     for node in ast.walk(bs.node):
-        if isinstance(node, ast.Assign) and isinstance(node.targets[0], ast.Subscript) and norm(node.targets[0].value) == "a":
-            blocks[norm(node.targets[0].slice).replace(" ", "")] = norm(node.value).replace(" ", "")
+        if isinstance(node, ast.Assign) and isinstance(node.targets[0], ast.Subscript) and norm(node.targets[0].value) == mat:
+            blocks[norm(node.targets[0].slice).replace(" ", "")] = norm(node.value).replace(" ", "").replace(pts, "P")
     need = {
-        "(:npt,:npt)": "0.5*(xpt_scale.T@xpt_scale)**2.0",
+        "(:npt,:npt)": "0.5*(P.T@P)**2.0",
         "(:npt,npt)": "1.0",
-        "(:npt,npt+1:)": "xpt_scale.T",
+        "(:npt,npt+1:)": "P.T",
         "(npt,:npt)": "1.0",
-        "(npt+1:,:npt)": "xpt_scale",
+        "(npt+1:,:npt)": "P",
     }
     got = {k.replace("[", "(").replace("]", ")") if not k.startswith("(") else k: v for k, v in blocks.items()}
     got = {("(" + k + ")" if not k.startswith("(") else k): v for k, v in got.items()}
